@@ -3,13 +3,13 @@ import OQ.Model.C15
 namespace OQ.C15
 
 theorem split_fold {C : Type} (tasks : List (Task C)) (k : Nat) (acc : Split C) :
-    (tasks.zipIdx k).foldl (fun (st : (List (Task C)) × (List (Task C)) × (List Int) × (List Int)) (p : Task C × Nat) =>
+    (tasks.zipIdx k).foldl (fun (st : (List Int) × (List (Task C)) × (List Int) × (List (Task C))) (p : Task C × Nat) =>
         if (p.1.op.isConstant || (p.1.shots == some (0 : Int))) then
-          (st.1 ++ [p.1], st.2.1, st.2.2.1 ++ [((p.2 : Nat) : Int)], st.2.2.2)
-        else (st.1, st.2.1 ++ [p.1], st.2.2.1, st.2.2.2 ++ [((p.2 : Nat) : Int)]))
-      (acc.notToMeasure, acc.toMeasure, acc.idxNot.map Int.ofNat, acc.idxMeasure.map Int.ofNat)
-    = ((splitLoop tasks k acc).notToMeasure, (splitLoop tasks k acc).toMeasure,
-       (splitLoop tasks k acc).idxNot.map Int.ofNat, (splitLoop tasks k acc).idxMeasure.map Int.ofNat) := by
+          (st.1 ++ [((p.2 : Nat) : Int)], st.2.1 ++ [p.1], st.2.2.1, st.2.2.2)
+        else (st.1, st.2.1, st.2.2.1 ++ [((p.2 : Nat) : Int)], st.2.2.2 ++ [p.1]))
+      (acc.idxNot.map Int.ofNat, acc.notToMeasure, acc.idxMeasure.map Int.ofNat, acc.toMeasure)
+    = ((splitLoop tasks k acc).idxNot.map Int.ofNat, (splitLoop tasks k acc).notToMeasure,
+       (splitLoop tasks k acc).idxMeasure.map Int.ofNat, (splitLoop tasks k acc).toMeasure) := by
   induction tasks generalizing k acc with
   | nil => rfl
   | cons t ts ih =>
